@@ -41,12 +41,9 @@ c44_inspect(insp(Given, Right, Wrong, Non, probes(DQ, OC, UN))) :-
     Non = [N1, N2, N3, N4],
     catch(( read_term_from_chars("\"ab\".", T, []) -> DQ = read(T) ; DQ = failed ), E1, c44_err(E1, DQ)),
     c44_outcome(\+ \+ (X = f(X)), OC),
-    % unknown=warning makes the machine println! to the process's real stdout
-    % (machine/mod.rs undefined_procedure), which is the worker's protocol
-    % channel: that mode is not probed behaviourally.
-    (   '$get_unknown'(warning) -> UN = skipped
-    ;   c44_outcome(c44_no_such_predicate_zz(1), UN)
-    ).
+    % (unknown=warning makes the machine println! its warning on the process's real
+    % stdout; the worker pool skips such non-protocol lines)
+    c44_outcome(c44_no_such_predicate_zz(1), UN).
 
 % F given, V unbound: all solutions
 c44_given([], []).
